@@ -14,8 +14,9 @@ import (
 
 func init() {
 	register(&Property{ID: "C27", Run: runC27, Mutants: []Mutant{
+		{Name: "methods are entered into the object map without an order number", File: "internal/types/resolver.go", Old: "\t\t\t\tcheck.objMap[obj] = info\n\t\t\t\tobj.setOrder(uint32(len(check.objMap)))", New: "\t\t\t\tcheck.objMap[obj] = info\n\t\t\t\tif d.Recv == nil {\n\t\t\t\t\tobj.setOrder(uint32(len(check.objMap)))\n\t\t\t\t}", Expect: "object-order-total"},
 		{Name: "method sets sorted by a non-unique key", File: "internal/types/methodset.go", Old: "return list[i].obj.Id() < list[j].obj.Id()", New: "return list[i].obj.Name() < list[j].obj.Name()", Expect: "sort-key-unique :: internal/types.NewMethodSet"},
-		{Name: "embed lookup matches by suffix (several entries can match)", File: "internal/types/embed.go", Old: "if k == commentInfo.Embed {", New: "if k == commentInfo.Embed || strings.HasSuffix(k, commentInfo.Embed) {", Expect: "map-order :: (*internal/types.Checker).processGlobalEmbed: range f.EmbedMap"},
+		{Name: "embed lookup matches by suffix (several entries can match)", File: "internal/types/embed.go", Old: "if k == commentInfo.Embed {", New: "if k == commentInfo.Embed || (len(k) > len(commentInfo.Embed) && k[len(k)-len(commentInfo.Embed):] == commentInfo.Embed) {", Expect: "map-order :: (*internal/types.Checker).processGlobalEmbed: range f.EmbedMap"},
 		{Name: "package members compiled in map order (sort removed)", File: "internal/backends/compiler_wat/compile.go", Old: "sort.Strings(memnames)", New: "_ = memnames", Nth: 1, Expect: "map-order"},
 		{Name: "packages compiled in map order (sort removed)", File: "internal/backends/compiler_wat/compile.go", Old: "sort.Strings(pkgnames)", New: "_ = pkgnames", Expect: "map-order"},
 		{Name: "new order-dependent loop on the build path", File: "internal/backends/compiler_wat/compile.go", Old: "func (p *Compiler) Compile(prog *loader.Program) (output string, err error) {", New: "func (p *Compiler) Compile(prog *loader.Program) (output string, err error) {\n\tfor name := range prog.Pkgs {\n\t\toutput += name\n\t}", Expect: "map-order"},
@@ -495,6 +496,7 @@ func runC27(c *Ctx) {
 	c.Exhaust = true
 	p := c.Load(LoadOpt{}, "./api")
 	const rMap, rSrc = "map-order", "nondeterminism-source"
+	c27ObjectOrder(c, p, p.Pkg("internal/types"))
 	p.BuildSSA()
 	var roots []*ssa.Function
 	for _, e := range c27Entries {
